@@ -8,7 +8,10 @@
   (`creditAtomic`, `reconnectAtomic`): a second `.lock()`, a scoped guard or a `drop(..)` inside the
   loop is extracted as `false` (a fact the proofs then reject), not as an unrecognised form.
 
-Closed set of recognised forms; anything else raises ExtractError (=> committed defaults, tie by the
+Closed set of recognised forms.  For the notify table an unrecognised guard is NOT an extraction error:
+it is recorded as the condition `unknown` ("reached only under a condition we do not understand"), which
+the model reads pessimistically, so `source_facts`/`wake_obligation` stop checking.  Structural surprises
+(method missing, loop statements not found) raise ExtractError (=> committed defaults, tie by the
 correspondence alone).
 """
 import re
@@ -48,18 +51,21 @@ def cond_of(method, header, body):
     """Map the text of an enclosing `if` to a Cond constructor of Model/Condvar.lean."""
     m = re.fullmatch(r"if (.*)", header)
     if not m:
-        raise ExtractError(f"{method}: notify inside unrecognised block `{header}`")
+        # `else`, a `match` arm, a loop …: reached only under a condition we cannot name
+        return "unknown"
     c = m.group(1)
     g = r"(?:guard|g)"
     if method == "record_ack" and re.fullmatch(r"file_index == " + g + r"\.current_file_index", c):
         return "fileMatches"
     if method == "record_ack" and re.fullmatch(r"capped > " + g + r"\.acked_offset", c):
         if not re.search(r"let capped = received_through_offset\.min\(" + g + r"\.sent_offset\);", norm(body)):
-            raise ExtractError("record_ack: `capped` is not min(received_through_offset, sent_offset)")
+            return "unknown"
         return "ackAdvances"
     if method == "cancel" and re.fullmatch(g + r"\.cancelled\.is_none\(\)", c):
         return "notCancelled"
-    raise ExtractError(f"{method}: unrecognised guard `{c}` around notify")
+    # An unrecognised guard around a notify is exactly the dangerous case: never fall back to the default
+    # table for it.  The fact becomes "notifies only under an unknown condition", which no proof accepts.
+    return "unknown"
 
 
 def notify_entry(imp, method):
@@ -76,12 +82,13 @@ def notify_entry(imp, method):
         before = body[:s.start()]
         for r in re.finditer(r"\breturn\b\s*([A-Za-z_:]*)", before):
             if not r.group(1).startswith("Err"):
-                raise ExtractError(f"{method}: non-error `return` before notify")
+                conds = conds + ["unknown"]     # a success path leaves before the call
+                break
         entries.append(conds)
     # several call sites: the method notifies when any fires; representable only if one is unconditional
     best = min(entries, key=len)
     if len(entries) > 1 and best:
-        raise ExtractError(f"{method}: several guarded notify sites")
+        best = ["unknown"]                       # a disjunction of guards is not representable: pessimistic
     return best, [s.group(1) for s in sites]
 
 
